@@ -44,11 +44,29 @@ CHECKS = {
          "For every call of a corpus covering all methods and entry points, every allocator/mapping request position (and pairs) is failed in turn; "
          "each faulty call and the following normal call are judged by the fail-closed, wipe and balance predicates of the specification.",
          "exhaustive single-fault enumeration judged by the TLA+ trace specification", "faults injected at the libc interface by interposition"),
+ "C10": ("model_checking", "5/C10",
+         "Gensalt.tla is a total model of crypt_gensalt_rn; every recorded call (all prefixes incl. NULL, full hashes and unknown tags x counts x "
+         "nrbytes 0..256 x three entry points and the compat aliases) is judged by TLC: passwd-safe, tag of the selected method, not rejected by "
+         "Checksalt, parses with the generated string as canonical form, deterministic across entry points; every affordable generated setting is "
+         "hashed and must be a literal prefix of the hash (TraceXCrypt C_Literal), including crypt(P, crypt_gensalt(...)) with the static pointer.",
+         "TLC trace validation against the Gensalt/Settings specifications", "count/nrbytes grids, not all 2^64 values"),
+ "C11": ("model_checking", "5/C11",
+         "DocCost (written from the man pages only) is compared by TLC with the cost decoded from the implementation's string by an independent "
+         "reader (CostIn) for every count 0..40, powers of two and ten +-1 up to 2^64, boundary and random 64-bit values, for every method.",
+         "TLC trace validation of the documented cost function", "numeric defaults are model constants"),
+ "C12": ("model_checking", "5/C12",
+         "TLC judges salt-size laws over nrbytes 0..256, flips every single bit of the supplied bytes and requires every bit the specification "
+         "says is consumed to change the result, checks that auto-entropy is drawn through the OS interface (interposed) and that two real draws differ.",
+         "TLC trace validation of bit-flip grids against Gensalt.tla", "the significance of a bit is defined by the exact model Gensalt.tla"),
+ "C13": ("model_checking", "5/C13",
+         "Complete grid of output_size -2..256 (plus large sizes) x prefixes x count classes x nrbytes classes: TLC judges fit, token shape, guard "
+         "bytes, errno kind, monotone success, leading-part relation to the 192-byte result, sufficiency of 192 bytes, and absence of aborts.",
+         "TLC trace validation of a complete size grid", "count and nrbytes classes as listed in coverage"),
 }
 
 NA = {}
 
-for p in ["C02", "C06", "C08", "C10", "C11", "C12", "C13", "C16", "C17", "C18", "C19", "C20", "C01", "C03"]:
+for p in ["C02", "C06", "C08", "C16", "C17", "C18", "C19", "C20", "C01", "C03"]:
     NA.setdefault(p, "check under construction in this round (see DESIGN.md section 9); not claimed until its machinery is committed")
 
 
